@@ -9,25 +9,13 @@ import (
 	"runtime"
 	"sort"
 	"strconv"
+	"strings"
 	"sync"
+	"sync/atomic"
 	"time"
 
 	"verif/simrt"
 )
-
-// goid returns the id of the calling goroutine (parsed from the stack header;
-// only used in degraded mode).
-func goid() int64 {
-	var buf [64]byte
-	n := runtime.Stack(buf[:], false)
-	b := buf[:n]
-	b = bytes.TrimPrefix(b, []byte("goroutine "))
-	if i := bytes.IndexByte(b, ' '); i > 0 {
-		v, _ := strconv.ParseInt(string(b[:i]), 10, 64)
-		return v
-	}
-	return -1
-}
 
 // World is the simulator state of one node process. Exactly one simulated
 // task runs at any time; hand-offs go through channels, so plain fields are
@@ -77,6 +65,15 @@ type World struct {
 
 	lockP    float64
 	lockRand *Rand
+
+	// tasks of a concurrent group that really block (a channel, a WaitGroup, a third-party lock)
+	// on something another simulated task will provide are set aside by the scheduler and come
+	// back through wokeCh once released (see RunConcurrent)
+	nWaiting   int32
+	setAside   int64
+	wmu        sync.Mutex
+	waitingByG map[int64]*Task
+	wokeCh     chan *Task
 }
 
 // blockWatch: how long a request may make no step at all (while not finished) before it is
@@ -146,6 +143,8 @@ type Task struct {
 	lastSite  int
 	segTicks  int64
 	blocked   bool
+	gnum      int64       // the runtime's number of the task's goroutine (to read its state from a stack dump)
+	waiting   bool        // set aside while really blocked
 	mapCtr    map[int]int // per-request counters of map-order decisions (task-local, so a task's orders do not depend on its neighbours)
 }
 
@@ -174,6 +173,8 @@ func NewWorld(env Env) *World {
 		clock:       time.Date(2020, 9, 13, 10, 12, 59, 0, time.UTC),
 		grand:       rand.New(rand.NewSource(1)),
 		probes:      map[string]int64{},
+		waitingByG:  map[int64]*Task{},
+		wokeCh:      make(chan *Task, 64),
 	}
 	w.mainGoid = goid()
 	w.mainTask = &Task{idx: -1, fuel: DefaultFuel, goid: w.mainGoid}
@@ -235,19 +236,57 @@ func (w *World) SiteName(id int) string {
 	return fmt.Sprintf("site#%d", id)
 }
 
-func (w *World) step(site int) {
+// caller returns the simulated task the calling goroutine belongs to: the current task on the
+// fast path. In degraded mode a goroutine started by repo code gets nil (counted, never
+// scheduled, never fuel-panicked). A task that had been set aside while it was really blocked
+// and has been released since waits here for its next turn.
+func (w *World) caller() *Task {
+	waiting := atomic.LoadInt32(&w.nWaiting) > 0
+	if !w.degraded && !waiting {
+		return w.cur
+	}
 	if w.degraded {
 		w.mu.Lock()
-		t := w.cur
-		if !w.pipeGoids && goid() != t.goid {
-			// a goroutine started by repo code: counted, never scheduled, never fuel-panicked
-			t.ticks++
-			w.mu.Unlock()
-			return
-		}
-		w.mu.Unlock()
 	}
 	t := w.cur
+	g := goid()
+	if w.pipeGoids || t == nil || g == t.goid {
+		if w.degraded {
+			w.mu.Unlock()
+		}
+		return t
+	}
+	var wt *Task
+	if waiting {
+		w.wmu.Lock()
+		wt = w.waitingByG[g]
+		w.wmu.Unlock()
+	}
+	if wt == nil {
+		if w.degraded {
+			t.ticks++
+			w.mu.Unlock()
+			return nil
+		}
+		return t
+	}
+	if w.degraded {
+		w.mu.Unlock()
+	}
+	w.wokeCh <- wt
+	<-wt.resume
+	return wt
+}
+
+func (w *World) step(site int) {
+	t := w.caller()
+	if t == nil {
+		return
+	}
+	w.stepT(t, site)
+}
+
+func (w *World) stepT(t *Task, site int) {
 	t.ticks++
 	t.lastSite = site
 	if site < len(w.siteHits) {
@@ -279,19 +318,26 @@ func (w *World) step(site int) {
 // running task's quantum ends here with that probability (the recorded schedule stays a plain
 // list of (task, steps) segments, so a replay switches at the very same step).
 func (w *World) stepLock(site int) {
+	t := w.caller()
+	if t == nil {
+		return
+	}
 	if w.schedOn && w.lockP > 0 && w.lockRand != nil && !simrt.NoPreempt() {
 		if w.lockRand.Float64() < w.lockP {
-			w.cur.quantum = 0
+			t.quantum = 0
 		}
 	}
-	w.step(site)
+	w.stepT(t, site)
 }
 
 func (w *World) yieldSpin() {
 	if !w.schedOn {
 		return
 	}
-	t := w.cur
+	t := w.caller()
+	if t == nil {
+		return
+	}
 	t.spinning = true
 	w.yieldCh <- t
 	<-t.resume
@@ -299,6 +345,10 @@ func (w *World) yieldSpin() {
 }
 
 func (w *World) mapOrder(site int, sorted []string) []string {
+	var me *Task
+	if !w.degraded && atomic.LoadInt32(&w.nWaiting) > 0 {
+		me = w.caller() // a task that was set aside and released waits for its turn here
+	}
 	if w.degraded {
 		w.mu.Lock()
 		defer w.mu.Unlock()
@@ -310,7 +360,11 @@ func (w *World) mapOrder(site int, sorted []string) []string {
 	}
 	w.mapDecided++
 	ctr := w.mapCounters
-	if t := w.cur; t != nil && t.mapCtr != nil {
+	t := w.cur
+	if me != nil {
+		t = me
+	}
+	if t != nil && t.mapCtr != nil {
 		ctr = t.mapCtr
 	}
 	c := ctr[site]
@@ -374,11 +428,19 @@ func (w *World) RunConcurrent(fns []func(t *Task), spec SchedSpec, estTicks []in
 		go func() {
 			<-t.resume
 			t.goid = goid()
+			t.gnum = goroutineNumber()
 			fn(t)
 			t.done = true
+			if t.waiting {
+				// released after having been set aside and finished without reaching a scheduling
+				// point: it is not the current task, the scheduler is not waiting for it
+				w.wokeCh <- t
+				return
+			}
 			w.yieldCh <- t
 		}()
 	}
+	mine := func(t *Task) bool { return t != nil && t.idx >= 0 && t.idx < n && tasks[t.idx] == t }
 	var segs [][2]int64
 	strat := newStrategy(spec, n, estTicks)
 	w.lockP, w.lockRand = 0, nil
@@ -391,15 +453,94 @@ func (w *World) RunConcurrent(fns []func(t *Task), spec SchedSpec, estTicks []in
 	w.schedOn = true
 	saved := w.cur
 	var last *Task
+	// a task that was set aside is runnable again once it reports back (it waits for its turn at
+	// the first scheduling point it reaches), or is done when it finished without reaching one
+	back := func(t *Task) {
+		if mine(t) && t.waiting {
+			t.waiting = false
+			w.wmu.Lock()
+			delete(w.waitingByG, t.goid)
+			w.wmu.Unlock()
+			atomic.AddInt32(&w.nWaiting, -1)
+		}
+	}
+	tick := time.NewTicker(50 * time.Millisecond)
+	defer tick.Stop()
+	drain := func() {
+		for {
+			select {
+			case wt := <-w.wokeCh:
+				back(wt)
+			default:
+				return
+			}
+		}
+	}
+	// settle: at a scheduling decision every task that was set aside is either still parked by
+	// the runtime (it stays aside) or has been released by what the last task did - the runtime
+	// readies a waiter inside the releasing operation, so this is a function of the execution,
+	// not of timing - and then the scheduler waits until it has reported back (or finished, or
+	// blocked again), so that the set of runnable tasks does not depend on how fast it gets there
+	settle := func() {
+		if atomic.LoadInt32(&w.nWaiting) == 0 {
+			return
+		}
+		deadline := time.Now().Add(blockWatch)
+		for {
+			dump := stackDump()
+			drain()
+			pending := false
+			for _, t := range tasks {
+				if !t.done && t.waiting && !blockedIn(dump, t.gnum) {
+					pending = true
+				}
+			}
+			if !pending || time.Now().After(deadline) {
+				return
+			}
+			select {
+			case wt := <-w.wokeCh:
+				back(wt)
+			case y := <-w.yieldCh:
+				back(y)
+			case <-time.After(2 * time.Millisecond):
+			}
+		}
+	}
 	for {
+		settle()
+		drain()
 		var runnable []int
+		nWaiting := 0
 		for i, t := range tasks {
-			if !t.done {
+			if !t.done && !t.waiting {
 				runnable = append(runnable, i)
+			}
+			if !t.done && t.waiting {
+				nWaiting++
 			}
 		}
 		if len(runnable) == 0 {
-			break
+			if nWaiting == 0 {
+				break
+			}
+			// every task that is left waits for something: for each other, or for nothing that
+			// will ever come
+			select {
+			case wt := <-w.wokeCh:
+				back(wt)
+			case y := <-w.yieldCh:
+				back(y)
+			case <-time.After(blockWatch):
+				for _, t := range tasks {
+					if !t.done && t.waiting {
+						back(t)
+						t.done, t.blocked = true, true
+						w.tainted = true
+					}
+				}
+			}
+			continue
 		}
 		// a task spinning on a lock must not be chosen again while another can run
 		cand := runnable
@@ -412,6 +553,9 @@ func (w *World) RunConcurrent(fns []func(t *Task), spec SchedSpec, estTicks []in
 			}
 		}
 		ti, q := strat.next(cand)
+		if ti < 0 || ti >= n || tasks[ti].done || tasks[ti].waiting {
+			ti = cand[0] // a replayed schedule that names a task which cannot run now
+		}
 		t := tasks[ti]
 		t.quantum = q
 		t.segTicks = 0
@@ -422,12 +566,31 @@ func (w *World) RunConcurrent(fns []func(t *Task), spec SchedSpec, estTicks []in
 	wait:
 		for {
 			select {
-			case <-w.yieldCh:
-				break wait
-			case <-time.After(250 * time.Millisecond):
+			case y := <-w.yieldCh:
+				if y == t {
+					break wait
+				}
+				back(y) // a task that had been set aside finished without reaching a scheduling point
+			case wt := <-w.wokeCh:
+				back(wt)
+			case <-tick.C:
 				if cur := t.ticks; cur != lastTicks {
 					lastTicks, idle = cur, 0
-				} else if idle += 250 * time.Millisecond; idle >= blockWatch {
+					continue
+				}
+				idle += 50 * time.Millisecond
+				if idle >= 100*time.Millisecond && (len(runnable) > 1 || nWaiting > 0) && goroutineBlocked(t.gnum) {
+					// it waits (channel, WaitGroup, a lock outside repo code) for something another
+					// task may provide: set aside, another task runs; it reports back when released
+					t.waiting = true
+					w.wmu.Lock()
+					w.waitingByG[t.goid] = t
+					w.wmu.Unlock()
+					atomic.AddInt32(&w.nWaiting, 1)
+					w.setAside++
+					break wait
+				}
+				if idle >= blockWatch {
 					// the task waits for something no simulated task will ever provide
 					blocked = true
 					break wait
@@ -454,6 +617,58 @@ func (w *World) RunConcurrent(fns []func(t *Task), spec SchedSpec, estTicks []in
 		w.accountTicks(t.ticks)
 	}
 	return segs
+}
+
+// goroutineNumber returns the runtime's number of the calling goroutine (once per task).
+func goroutineNumber() int64 {
+	var buf [64]byte
+	n := runtime.Stack(buf[:], false)
+	b := bytes.TrimPrefix(buf[:n], []byte("goroutine "))
+	if i := bytes.IndexByte(b, ' '); i > 0 {
+		v, _ := strconv.ParseInt(string(b[:i]), 10, 64)
+		return v
+	}
+	return -1
+}
+
+// goroutineBlocked reports whether goroutine gnum is parked by the Go runtime on a
+// synchronisation primitive (as opposed to running un-instrumented code for a long time): read
+// from a dump of all goroutine stacks, only when a task made no step for a while.
+func goroutineBlocked(gnum int64) bool {
+	return blockedIn(stackDump(), gnum)
+}
+
+var dumpBuf = make([]byte, 1<<20)
+
+// stackDump is only called by the scheduler goroutine.
+func stackDump() []byte {
+	return dumpBuf[:runtime.Stack(dumpBuf, true)]
+}
+
+func blockedIn(dump []byte, gnum int64) bool {
+	if gnum <= 0 {
+		return false
+	}
+	key := []byte(fmt.Sprintf("goroutine %d [", gnum))
+	i := bytes.Index(dump, key)
+	if i < 0 {
+		return false
+	}
+	rest := dump[i+len(key):]
+	j := bytes.IndexByte(rest, ']')
+	if j < 0 {
+		return false
+	}
+	state := string(rest[:j])
+	if k := strings.IndexByte(state, ','); k >= 0 {
+		state = state[:k]
+	}
+	switch state {
+	case "chan send", "chan receive", "select", "semacquire", "sync.Mutex.Lock", "sync.RWMutex.RLock",
+		"sync.RWMutex.Lock", "sync.WaitGroup.Wait", "sync.Cond.Wait":
+		return true
+	}
+	return false
 }
 
 func (w *World) accountTicks(n int64) {
